@@ -47,7 +47,11 @@ def record (T : Tables) (op : String) (s : PosImpl) (extra : String) : String :=
   let chk := if s = fresh T p then "ok" else "MISMATCH:model"
   let fen := toFEN p
   let rt := match readFEN fen with
-    | .ok q => if q = fixupEP p then "ok" else "MISMATCH:model"
+    | .ok q =>
+      -- the (repaired) reader clamps both counters to 0..65535; beyond that the round trip is exact up to the clamp
+      let want := fixupEP p
+      let want := { want with hmc := min want.hmc 65535, fmc := min want.fmc 65535 }
+      if q = want then (if p.hmc > 65535 ∨ p.fmc > 65535 then "clamped" else "ok") else "MISMATCH:model"
     | .error e => "err:" ++ e.toString
   let sd := serialize s
   let ser := ",".intercalate (sd.map hx)
